@@ -604,7 +604,9 @@ fn premise_scan(report: &Report) {
 
 pub fn run(tier: Tier, seed: u64) -> i32 {
     let report = Report::new("C12", tier, seed, "model_checking");
-    let keys = key40s(seed, 1);
+    // position-dependent keys first (the counter-mode key, the ramp ...); the constant keys 00.. / FF.., under which the key
+    // position is invisible, come last
+    let keys: Vec<[u8; 40]> = key40s(seed, 1).into_iter().rev().collect();
     let nk = tier.pick(2usize, 4usize);
     // shallow & wide, then deep & narrow
     let plans: Vec<(Vec<usize>, Vec<u8>, usize)> = if tier == Tier::Thorough {
